@@ -16,7 +16,7 @@ LCoord == (-K)..K               \* lattice-plane coordinates
 Cells  == Coord \X Coord \X Coord
 
 (* A box is <<lo, hi>> with lo[i] < hi[i], corners on lattice planes.      *)
-BoxCells(b) == { c \in Cells : \A i \in 1..3 : b[1][i] <= c[i] /\ c[i] < b[2][i] }
+BoxCells(b) == (b[1][1]..(b[2][1]-1)) \X (b[1][2]..(b[2][2]-1)) \X (b[1][3]..(b[2][3]-1))
 AllBoxes == { b \in (LCoord \X LCoord \X LCoord) \X (LCoord \X LCoord \X LCoord) :
                 \A i \in 1..3 : b[1][i] < b[2][i] }
 
@@ -41,8 +41,8 @@ BatchSem(op, ds) ==
 Id3 == [ax |-> <<1,2,3>>, sg |-> <<1,1,1>>, tr |-> <<0,0,0>>]
 ApPoint(g, p) == [i \in 1..3 |-> g.sg[i] * p[g.ax[i]] + g.tr[i]]
 (* image of the unit cell with min corner c: the min corner of the image    *)
-ApCell(g, c) == [i \in 1..3 |-> IF g.sg[i] = 1 THEN c[g.ax[i]] + g.tr[i]
-                                             ELSE -c[g.ax[i]] - 1 + g.tr[i]]
+AC1(g, c, i) == IF g.sg[i] = 1 THEN c[g.ax[i]] + g.tr[i] ELSE -c[g.ax[i]] - 1 + g.tr[i]
+ApCell(g, c) == << AC1(g, c, 1), AC1(g, c, 2), AC1(g, c, 3) >>
 ApCells(g, S) == { ApCell(g, c) : c \in S }
 InWindow(S) == S \subseteq Cells
 (* h after g : (Comp(h,g))(p) = h(g(p))                                     *)
